@@ -12,7 +12,16 @@ PROP = 'C12'
 FE = '<bls12_381::Bls12 as Engine>::final_exponentiation'
 
 
+def tower_rules(fx, rep):
+    """The exponent derivation treats the tower operations (inverse, frobenius_map, conjugate, is_zero of the
+    components) by contract; the structural part of those contracts is decided by C09's rules, which are
+    therefore necessary conditions here too."""
+    from props import c09
+    c09.rules(fx, rep)
+
+
 def rules(fx, rep):
+    tower_rules(fx, rep)
     q = M.Q
     N = q**12 - 1
     target = 3 * (N // M.R_ORDER) % N
